@@ -415,8 +415,19 @@ pub struct QueryState<'a> {
 
 impl Drop for QueryState<'_> {
     fn drop(&mut self) {
-        // FIXME: This may be wrong if the iterator is not fully consumed, but from testing it
-        // seems fine. Is this really ok?
+        // If the iterator is not fully consumed, the query's remaining choice points are
+        // still above the stub choice point: discard them, so that it is the stub frame
+        // (and not the topmost leftover frame) that is popped here.
+        if self.machine.machine_st.b > self.stub_b {
+            self.machine.machine_st.b = self.stub_b;
+
+            // the discarded frames may belong to setup_call_cleanup/3 or
+            // call_with_inference_limit/3 goals that will never be resumed.
+            self.machine.machine_st.scc_block = 0;
+            self.machine.machine_st.cont_pts.clear();
+            self.machine.machine_st.cwil.reset();
+        }
+
         self.machine.trust_me();
     }
 }
